@@ -689,8 +689,20 @@ def none_facts(par, node):
                     out.add(t.left.id)
                 if isinstance(t.ops[0], ast.IsNot) and not in_body:
                     out.add(t.left.id)
+        # an earlier statement of the same list `if X is not None: ..; <exit>`: past it X is None
+        for fld in ("body", "orelse", "finalbody"):
+            lst = getattr(p, fld, None)
+            if isinstance(lst, list) and any(n is y for y in lst):
+                k = [i for i, y in enumerate(lst) if y is n][0]
+                for prev in lst[:k]:
+                    if isinstance(prev, ast.If) and not prev.orelse and prev.body and isinstance(prev.body[-1], (ast.Return, ast.Raise, ast.Continue, ast.Break)):
+                        t = prev.test
+                        if isinstance(t, ast.Compare) and len(t.ops) == 1 and isinstance(t.ops[0], ast.IsNot) and isinstance(t.left, ast.Name) \
+                                and isinstance(t.comparators[0], ast.Constant) and t.comparators[0].value is None:
+                            rebound = any(isinstance(x, ast.Name) and x.id == t.left.id and isinstance(x.ctx, ast.Store) for y in lst[lst.index(prev) + 1:k] for x in ast.walk(y))
+                            if not rebound:
+                                out.add(t.left.id)
         n = p
-    # straight-line: earlier `if X is None: return ...` does not make X None later; nothing to add
     return out
 
 
